@@ -226,7 +226,13 @@ def run_selftest(pid: str, root: str) -> dict:
     if not witnesses:
         return {"witnesses": 0, "failed": [], "results": []}
     jobs = [(pid, root, w) for w in witnesses]
-    workers = min(16, len(jobs), os.cpu_count() or 4)
+    cpus = os.cpu_count() or 4
+    workers = min(int(os.environ.get("SA_WORKERS", "16")), len(jobs), cpus)
+    try:
+        if os.getloadavg()[0] > 2 * cpus:          # many self-tests at once (one per module): do not multiply the load by 16
+            workers = min(workers, 3)
+    except OSError:
+        pass
     with ProcessPoolExecutor(max_workers=workers) as ex:
         results = list(ex.map(_run_one, jobs))
     failed = [f"{r['name']}: {r['status']} ({r['detail']})" for r in results
